@@ -720,6 +720,7 @@ func TestC15(t *testing.T) {
 	r := vh.New("C15", "grant-differential")
 	r.Rule = "SQLite-dialect statements from the grammar-driven generator: one directed statement per (reference position x relation) plus PRNG statements of every kind; " +
 		"each is sent to @sql and to the sql task of @transaction once per element of its EXPLAIN-derived required set with that single grant removed; " +
+		"plus multi-statement payloads (JSON array to @sql, several sql tasks to @transaction): every ordered pair of different verbs on one table, the same with an unrelated statement in between, and PRNG batches of 2-4 statements over 1-2 tables, required set per statement, whole batch must be refused and nothing applied; " +
 		"distinct = distinct statement text; non-trivial = the statement executes (200) under the full grant set and requires at least one grant"
 	r.Assume("SQLite EXPLAIN (OpenRead/OpenWrite root pages, writes to sqlite_master, Destroy, CreateBtree) on a checker connection with the same schema is the ground truth of what a statement touches")
 	r.Assume("reads of a statement's own target table (UPDATE/DELETE WHERE scan, index build, column rewrite) are not counted as requiring the read grant unless the statement also names the table in a reading position")
@@ -740,6 +741,15 @@ func TestC15(t *testing.T) {
 	}()
 
 	if raw := vh.ReplayCase(); raw != nil {
+		var bc c15BatchCase
+		if err := json.Unmarshal(raw, &bc); err == nil && len(bc.Batch) > 0 {
+			c.batchDifferential(bc.Batch, "replay")
+			r.Distinct = 2
+			_ = r.Write()
+
+			return
+		}
+
 		var cs c15Case
 		if err := json.Unmarshal(raw, &cs); err != nil {
 			t.Fatal(err)
@@ -812,7 +822,10 @@ func TestC15(t *testing.T) {
 		}
 	}
 
-	// 2. random stream; statements that use a position named by a known finding are left to the directed part
+	// 2. multi-statement payloads (verb-order table + PRNG batches)
+	c.batches(g, vh.N(40, 3000))
+
+	// 3. random stream; statements that use a position named by a known finding are left to the directed part
 	n := vh.N(400, 20000) - int(r.Counters["directed.statements"])
 	skipped := 0
 
